@@ -15,13 +15,16 @@ func init() {
 		ID:    "C33",
 		Title: "Manual recovery keeps all applied data",
 		Explanation: "C33.a ORD: in store.RecoverNode the events occur, on every path to success, in the order: configuration validated → newest snapshot restored (when one exists) → every log index from snapshotIndex+1 through LastIndex() replayed, LogCommand entries through CommandProcessor.Process (and only those) → checkpoint → snapshot created with the peers-file configuration at the last replayed index/term → Persist → sink.Close() returned nil → only then DeleteRange of the log. " +
-			"C33.b DOM: in Store.Open the fast-restart marker is removed before RecoverNode, the peers file is renamed only after RecoverNode returned nil, and on the path through a successful recovery raft is started with NoSnapshotRestoreOnStart == false and the database files are rebuilt (the recovery snapshot holds everything that was in the log, which has just been compacted).",
+			"C33.b DOM: in Store.Open the fast-restart marker is removed before RecoverNode, the peers file is renamed only after RecoverNode returned nil, and on the path through a successful recovery raft is started with NoSnapshotRestoreOnStart == false and the database files are rebuilt (the recovery snapshot holds everything that was in the log, which has just been compacted). " +
+			"C33.c DOM/PAIR: all files of the temporary recovery database (it runs in WAL mode) are removed before the snapshot is restored into it and again when the recovery ends. " +
+			"C33.d CONST: the temporary database is opened with the node's own DBConfig.FKConstraints (passed from Store.Open), so that replayed statements behave as they did when first applied.",
 		NotCovered: []string{"contents of the recovered database (values)", "raft's behaviour with the new configuration"},
 		Run:        runC33,
 	})
 }
 
 func runC33(c *core.Ctx) {
+	c33TempDB(c)
 	fn := c.Fn("C33.a", "store", "RecoverNode")
 	if fn != nil {
 		find := func(ids ...string) ssa.CallInstruction {
@@ -173,8 +176,12 @@ func runC33(c *core.Ctx) {
 			// snapshot metadata: last replayed index/term, the peers configuration
 			a := create.Common().Args
 			okMeta := len(a) >= 6 && an.Mentions(a[1], func(v ssa.Value) bool {
-				return an.MentionsField(v, "Log", "Index") || strings.Contains(an.Canon(v), "snapshotIndex")
-			}) && isParamN(fn, 7)(a[3])
+				return an.MentionsField(v, "Log", "Index") || isRestoredSnapshotIndex(fn, v, 0)
+			}) && func() bool {
+				// the configuration is RecoverNode's parameter of type raft.Configuration (wherever it sits in the list)
+				p, isP := an.Unwrap(a[3]).(*ssa.Parameter)
+				return isP && p.Parent() == fn && strings.HasSuffix(p.Type().String(), "raft.Configuration")
+			}()
 			c.Result(okMeta, "C33.a", "ORD", "RecoverNode:snapshot-meta", c.P.Pos(create.Pos()),
 				"the recovery snapshot is labelled with the last replayed index and carries the peers-file configuration",
 				"the recovery snapshot is not created at the last replayed index with the supplied configuration", nil)
